@@ -77,6 +77,10 @@ type lockPkg struct {
 	// HistoricalOnly: methods that outside this package may only be called from coreV2/state/state.go (constructors)
 	// or, in api/v2/service, inside an `if req.Height != 0` block (a private state at a past height); checked here
 	HistoricalOnly []string
+	// Unreachable: exported methods that nothing calls: no call site in the package, and every occurrence of
+	// ".Method(" in the other non-test files of the repo matches the regexp (it belongs to another type); checked
+	// here.  Their accesses are emitted as allow-listed (via "unreachable"): code that never runs cannot race.
+	Unreachable map[string]string
 }
 
 var lockPkgs = []*lockPkg{
@@ -169,7 +173,10 @@ var lockPkgs = []*lockPkg{
 			fsp("Validators", "removed", false, "written next to list", gd("Validators", "lock", "same")),
 			fsp("Validators", "loaded", false, "LoadValidators takes lock", gd("Validators", "lock", "same")),
 		},
-		Ifaces:         map[string]string{"RValidators": "Validators"},
+		Ifaces: map[string]string{"RValidators": "Validators"},
+		Unreachable: map[string]string{
+			"Validators.Create": `(snapshotManager|pair|Candidates|Coins|os)\.Create\($|^coreV2/state/(coins|candidates)/\w+\.go\t\s*c\.Create\($`, // (it appends to v.list under RLock: to be fixed or deleted should it ever be used)
+		},
 		NotRoots:       map[string]string{"LoadValidators": "api/v2/service calls it only inside `if req.Height != 0`, i.e. on a private historical state (checked here); state.go calls it in the constructors"},
 		Init:           map[string]string{"NewValidators": "constructor: the object is not yet published", "Validators.Export": "only run on a private state: State.Export and `minter export` build a fresh CheckState at a height (checked here: no .Export( on a state in api/, cli/, coreV2/minter)"},
 		HistoricalOnly: []string{"LoadValidators"},
@@ -313,6 +320,7 @@ type accessRec struct {
 // acqRec: a Lock()/RLock() with the locks already held there
 type acqRec struct {
 	ID, Base string
+	W        bool
 	Line     int
 	Held     lockSet
 }
@@ -335,6 +343,7 @@ type node struct {
 	Params   []string
 	Exported bool
 	Internal bool // exported, but every call is in this package
+	Dead     bool // exported, declared unreachable and checked to be so
 	File     string
 	Parent   *node
 	LitHeld  *lockSet // for a literal run in place: the locks of that point (recomputed each round)
@@ -576,6 +585,18 @@ func loadLockPkg(spec *lockPkg) (*pkgAnalysis, error) {
 		}
 		n.Internal = true
 	}
+	for name, allow := range spec.Unreachable {
+		n := pa.nodes[name]
+		if n == nil {
+			pa.errs = append(pa.errs, "UNKNOWN_UNREACHABLE_METHOD_"+strings.ReplaceAll(name, ".", "_"))
+			continue
+		}
+		if bad := outsideUses(spec.Dir, name[strings.Index(name, ".")+1:], allow); len(bad) > 0 {
+			pa.errs = append(pa.errs, "UNREACHABLE_METHOD_CALLED_FROM_"+strings.NewReplacer("/", "_", ".", "_", ":", "_").Replace(bad[0]))
+			continue
+		}
+		n.Dead = true // (in-package call sites are checked after the analysis: deadCalled)
+	}
 	for name := range spec.Init {
 		if pa.nodes[name] == nil {
 			pa.errs = append(pa.errs, "UNKNOWN_INIT_FUNCTION_"+strings.ReplaceAll(name, ".", "_"))
@@ -698,7 +719,7 @@ func outsideUses(dir, method, allow string) []string {
 					break
 				}
 				end := off + k + len(method) + 2
-				if re == nil || !re.MatchString(l[:end]) {
+				if re == nil || !re.MatchString(rel+"\t"+l[:end]) { // the regexp sees "path<TAB>line up to the call"
 					bad = append(bad, fmt.Sprintf("%s:%d", rel, i+1))
 				}
 				rest = rest[k+1:]
@@ -1132,7 +1153,7 @@ func (w *walker) stmt(s ast.Stmt, in lockSet) (lockSet, bool) {
 			out := in.clone()
 			switch op {
 			case "Lock", "RLock":
-				w.acqs = append(w.acqs, acqRec{ID: id, Base: base, Line: w.pa.fset.Position(x.Pos()).Line, Held: in.clone()})
+				w.acqs = append(w.acqs, acqRec{ID: id, Base: base, W: op == "Lock", Line: w.pa.fset.Position(x.Pos()).Line, Held: in.clone()})
 				if i := out.find(id, base); i >= 0 {
 					out = append(out[:i], out[i+1:]...)
 				}
@@ -1910,18 +1931,22 @@ func guardEval(a *accessRec) (held []string, readOK, writeOK, inherited bool) {
 }
 
 type lockTable struct {
-	relocks   []string    // a mutex acquired while the same thread already holds it
-	nonatomic []string    // cache fills whose absence check and store are two critical sections
-	edges     [][3]string // lock order: held -> acquired, witness
-	edgeAPI   []bool      // some site of the edge is reachable from a query entry point
-	lockNodes []string
-	cycles    []string
-	guards    [][2]string
-	rows      []string // Coq terms
-	unguarded []string
-	errs      []string
-	counts    map[string]int
-	qwrites   []string
+	relocks           []string       // a mutex acquired while the same thread already holds it
+	relocksIrrelevant []string       // RLock inside RLock where no other goroutine can ask for the write lock
+	unguardedCount    map[string]int // unguarded accesses per site key
+	reviewed          []string       // static keys covered by reviewedSites (with the pinned number of accesses)
+	reported          []string       // static keys not covered: what the harness reports
+	nonatomic         []string       // cache fills whose absence check and store are two critical sections
+	edges             [][3]string    // lock order: held -> acquired, witness
+	edgeAPI           []bool         // some site of the edge is reachable from a query entry point
+	lockNodes         []string
+	cycles            []string
+	guards            [][2]string
+	rows              []string // Coq terms
+	unguarded         []string
+	errs              []string
+	counts            map[string]int
+	qwrites           []string
 }
 
 // lockOrder: A -> B when B is acquired (here or in a callee, transitively) at a point where A is
@@ -2084,22 +2109,55 @@ func (t *lockTable) lockOrder(pas map[string]*pkgAnalysis) {
 // translated through receiver and arguments).
 func (t *lockTable) findRelocks(pas map[string]*pkgAnalysis) {
 	seen := map[string]bool{}
-	add := func(k string) {
-		if !seen[k] {
-			seen[k] = true
-			t.relocks = append(t.relocks, k)
-		}
-	}
 	for _, spec := range lockPkgs {
 		pa := pas[spec.Dir]
 		if pa == nil {
 			continue
 		}
+		pa.reachShared()
+		// who asks for the mutex in W mode: anybody / a query
+		wAny, wQuery := map[string]bool{}, map[string]bool{}
+		for _, name := range pa.order {
+			n := pa.nodes[name]
+			top := n
+			for top.Parent != nil {
+				top = top.Parent
+			}
+			if top.Init || top.Dead {
+				continue
+			}
+			for _, a := range n.Acquires {
+				if a.W {
+					wAny[a.ID] = true
+					if n.ApiS {
+						wQuery[a.ID] = true
+						if os.Getenv("XLATE_LOCKS_DEBUG") != "" {
+							fmt.Fprintf(os.Stderr, "QUERYWLOCK %s %s\n", a.ID, name)
+						}
+					}
+				}
+			}
+		}
+		// add: a re-acquisition involving a W mode blocks by itself.  RLock inside RLock blocks only when ANOTHER
+		// goroutine asks for the write lock in between: block execution is one goroutine, so either the
+		// re-locking code is query-reachable (and anybody writes), or it is executor-only and a query writes.
+		add := func(k, id string, site *node, heldW, newW bool) {
+			if !heldW && !newW {
+				if !((site.ApiS && wAny[id]) || (!site.ApiS && wQuery[id])) {
+					t.relocksIrrelevant = append(t.relocksIrrelevant, k)
+					return
+				}
+			}
+			if !seen[k] {
+				seen[k] = true
+				t.relocks = append(t.relocks, k)
+			}
+		}
 		for _, name := range pa.order {
 			n := pa.nodes[name]
 			for _, a := range n.Acquires {
-				if a.Held.find(a.ID, a.Base) >= 0 {
-					add(fmt.Sprintf("c25-relock:%s:%s:%s", n.File, name, a.ID))
+				if i := a.Held.find(a.ID, a.Base); i >= 0 {
+					add(fmt.Sprintf("c25-relock:%s:%s:%s", n.File, name, a.ID), a.ID, n, a.Held[i].W, a.W)
 				}
 			}
 			for _, c := range n.Calls {
@@ -2126,7 +2184,7 @@ func (t *lockTable) findRelocks(pas map[string]*pkgAnalysis) {
 						// only acquisitions the callee makes before releasing anything of its own: those not preceded
 						// by a release are exactly the ones whose Held set does not yet contain the lock
 						if a.ID == l.ID && a.Base == base && a.Held.find(a.ID, a.Base) < 0 {
-							add(fmt.Sprintf("c25-relock:%s:%s->%s:%s", n.File, name, c.Callee, a.ID))
+							add(fmt.Sprintf("c25-relock:%s:%s->%s:%s", n.File, name, c.Callee, a.ID), a.ID, n, l.W, a.W)
 						}
 					}
 				}
@@ -2262,7 +2320,7 @@ func buildLockTable() *lockTable {
 	if lockTableCache != nil {
 		return lockTableCache
 	}
-	t := &lockTable{counts: map[string]int{}}
+	t := &lockTable{counts: map[string]int{}, unguardedCount: map[string]int{}}
 	lockTableCache = t
 	pas := map[string]*pkgAnalysis{}
 	for _, spec := range lockPkgs {
@@ -2315,6 +2373,23 @@ func buildLockTable() *lockTable {
 			t.guards = append(t.guards, [2]string{fs.Struct + "." + fs.Field, "[" + strings.Join(gs, "; ") + "]"})
 		}
 	}
+	for _, spec := range lockPkgs {
+		if pa := pas[spec.Dir]; pa != nil {
+			for _, name := range pa.order {
+				for _, c := range pa.nodes[name].Calls {
+					if cn := pa.nodes[c.Callee]; cn != nil && cn.Dead && !pa.nodes[name].Dead {
+						top := pa.nodes[name]
+						for top.Parent != nil {
+							top = top.Parent
+						}
+						if top != cn {
+							t.errs = append(t.errs, "UNREACHABLE_METHOD_CALLED_BY_"+strings.NewReplacer(".", "_", "#", "_").Replace(name))
+						}
+					}
+				}
+			}
+		}
+	}
 	t.lockOrder(pas)
 	t.findRelocks(pas)
 	t.findNonAtomicFills(pas)
@@ -2333,7 +2408,7 @@ func buildLockTable() *lockTable {
 				a := &n.Accesses[i]
 				all = append(all, a)
 				owner = append(owner, n)
-				if n.Api && !n.Init && !a.Fresh {
+				if n.Api && !n.Init && !a.Fresh && !n.Dead {
 					shared[a.Field] = true
 				}
 			}
@@ -2351,9 +2426,16 @@ func buildLockTable() *lockTable {
 				via = "callers"
 			}
 		}
-		init := n.Init || a.Fresh
+		topn := n
+		for topn.Parent != nil {
+			topn = topn.Parent
+		}
+		init := n.Init || a.Fresh || topn.Dead
 		if a.Fresh {
 			via = "fresh"
+		}
+		if topn.Dead {
+			via = "unreachable"
 		}
 		ok := readOK
 		if a.Write {
@@ -2370,6 +2452,7 @@ func buildLockTable() *lockTable {
 		default:
 			t.counts["unguarded"]++
 			key := fmt.Sprintf("c25-unguarded:%s:%s:%s", a.File, a.Func, a.Field)
+			t.unguardedCount[key]++
 			if !seenKey[key] {
 				seenKey[key] = true
 				t.unguarded = append(t.unguarded, key)
@@ -2390,7 +2473,74 @@ func buildLockTable() *lockTable {
 			fmt.Fprintf(os.Stderr, "UNGUARDED %s:%d %s %s base=%s write=%v held=%v entry=%v api=%v<-%s\n", a.File, a.Line, a.Func, a.Field, a.Base, a.Write, a.Held, n.Entry, n.Api, n.ApiFrom)
 		}
 	}
+	// reviewed vs reported
+	for _, k := range t.allStatic() {
+		if rv, ok := reviewedSites[k]; ok && (rv.Count == 0 || rv.Count == t.unguardedCount[k]) && rv.holds() {
+			t.reviewed = append(t.reviewed, k)
+		} else {
+			t.reported = append(t.reported, k)
+		}
+	}
 	return t
+}
+
+func (t *lockTable) allStatic() []string {
+	all := append([]string{}, t.unguarded...)
+	all = append(all, t.cycles...)
+	all = append(all, t.relocks...)
+	return append(all, t.nonatomic...)
+}
+
+// reviewedSites: static sites that violate the letter of the discipline but cannot go wrong, each with the
+// argument (repeated in coq/Properties/C25.v, which pins this list: C25_static_sites_reviewed).  Count: the number
+// of unguarded accesses the site has; one more (a Lock removed in the same function) and the site is reported.
+type reviewedSite struct {
+	Count int
+	Why   string
+	// facts of the source the argument rests on, checked on every run: substrings that must not occur in the
+	// non-test files below a directory, and substrings that must occur in a file
+	AbsentBelow map[string][]string
+	PresentIn   [][2]string
+}
+
+// holds: the facts the argument rests on are still true of the source
+func (r reviewedSite) holds() bool {
+	for dir, subs := range r.AbsentBelow {
+		for rel, lines := range repoLines() {
+			if !strings.HasPrefix(rel, dir) {
+				continue
+			}
+			for _, l := range lines {
+				for _, sub := range subs {
+					if strings.Contains(l, sub) {
+						return false
+					}
+				}
+			}
+		}
+	}
+	for _, p := range r.PresentIn {
+		found := false
+		for _, l := range repoLines()[p[0]] {
+			if strings.Contains(l, p[1]) {
+				found = true
+			}
+		}
+		if !found {
+			return false
+		}
+	}
+	return true
+}
+
+var reviewedSites = map[string]reviewedSite{
+	"c25-relock:coreV2/state/validators/validators.go:Validators.IsValidator->Validators.GetValidators:Validators.lock": {Count: 0,
+		Why:         "RLock inside RLock deadlocks only if another goroutine asks for the write lock in between. IsValidator is called only by Candidates.DeleteCandidate (block execution). The write lock of Validators.lock is requested by block execution (Commit, SetNewValidators, SetValidators, TotalStakes) and by Count(), which only IsDelegatorStakeAllowed reaches: the Delegate transaction, i.e. DeliverTx (the same goroutine) and CheckTx, which the local ABCI client serialises with block execution (one mutex for all connections); no API or CLI handler calls either",
+		AbsentBelow: map[string][]string{"api/": {"IsDelegatorStakeAllowed(", ".IsValidator(", "Validators().Count("}, "cli/": {"IsDelegatorStakeAllowed(", ".IsValidator(", "Validators().Count("}},
+		PresentIn:   [][2]string{{"cmd/minter/cmd/node.go", "proxy.NewLocalClientCreator(app)"}}},
+	"c25-unguarded:coreV2/state/swap/orderV2.go:PairV2.getDirtyOrdersList:orderDirties.list": {Count: 1, Why: "len(p.dirtyOrders.list) before the RLock, only a capacity hint; called from SwapV2.Commit under pair.lockOrders; dirtyOrders.list of a live pair is written only by MarkDirtyOrders, whose callers on a live pair (SellWithOrders, BuyWithOrders, AddOrder, removeLimitOrder) hold lockOrders and run in block execution; queries write it on private copies only"},
+	"c25-unguarded:coreV2/state/swap/swapV2.go:SwapV2.Commit:SwapV2.dirties":                 {Count: 1, Why: "s.dirties = map{} under muPairs.RLock: every other access to dirties is the markDirty closure under muPairs.Lock (excluded by the RLock) or getOrderedDirtyPairs in Commit itself (same goroutine)"},
+	"c25-unguarded:coreV2/state/swap/swapV2.go:SwapV2.Commit:SwapV2.dirtiesOrders":           {Count: 1, Why: "s.dirtiesOrders = map{} under muPairs.RLock: every other access is the markDirtyOrders closure under muPairs.Lock (excluded by the RLock) or getOrderedDirtyOrderPairs in Commit itself (same goroutine)"},
 }
 
 func coqStrList(l []string) string {
@@ -2446,8 +2596,19 @@ func genLocks() string {
 	fmt.Fprintf(&sb, "Definition xlate_lock_cycles : list string := %s.\n\n", coqStrList(t.cycles))
 	sb.WriteString("(* re-acquisition of a mutex the thread already holds (Go mutexes are not reentrant; Lockset.run_ls rejects it) *)\n")
 	fmt.Fprintf(&sb, "Definition xlate_relocks : list string := %s.\n\n", coqStrList(t.relocks))
+	fmt.Fprintf(&sb, "Definition xlate_relocks_irrelevant : list string := %s. (* RLock inside RLock, no other goroutine ever asks for the write lock *)\n\n", coqStrList(t.relocksIrrelevant))
 	sb.WriteString("(* cache fills whose absence check and store are separate critical sections (Lockset: QStore, not QFill) *)\n")
 	fmt.Fprintf(&sb, "Definition xlate_nonatomic_fills : list string := %s.\n\n", coqStrList(t.nonatomic))
+	sb.WriteString("(* static sites covered by the reviewed list of locks.go (key, number of unguarded accesses) / the others: reported by the harness *)\n")
+	sb.WriteString("Definition xlate_reviewed : list (string * Z) := [")
+	for i, k := range t.reviewed {
+		if i > 0 {
+			sb.WriteString(";\n  ")
+		}
+		fmt.Fprintf(&sb, "(%q, %d)", k, t.unguardedCount[k])
+	}
+	sb.WriteString("].\n")
+	fmt.Fprintf(&sb, "Definition xlate_reported : list string := %s.\n\n", coqStrList(t.reported))
 	keys := make([]string, 0, len(t.counts))
 	for k := range t.counts {
 		keys = append(keys, k)
@@ -2467,6 +2628,5 @@ func genLocksUnguarded() string {
 	if len(t.errs) > 0 {
 		return "c25-unguarded:TRANSLATOR:" + t.errs[0] + "\n"
 	}
-	all := append(append(append(append([]string{}, t.unguarded...), t.cycles...), t.relocks...), t.nonatomic...)
-	return strings.Join(all, "\n") + "\n"
+	return strings.Join(t.reported, "\n") + "\n"
 }
